@@ -71,16 +71,11 @@ func (s *seqState) refFailEffect(k int, e *mEntry) {
 	}
 }
 
-func (s *seqState) applyLoad(op *Op, res *Result, vis *mEntry, base []string, explicit *[]*expEvent, loads []*loadRec) int {
+func (s *seqState) applyLoad(op *Op, res *Result, vis *mEntry, base []string, loads []*loadRec) int {
 	m, r := s.m, s.r
 	k := op.K
 	plan := planOf(op)
 	props := withProp(base, "C10")
-	add := func(e *expEvent) {
-		if e != nil {
-			*explicit = append(*explicit, e)
-		}
-	}
 	if vis != nil {
 		m.hits++
 		if res.Panic || res.V != vis.V || res.Err != "" {
@@ -94,13 +89,13 @@ func (s *seqState) applyLoad(op *Op, res *Result, vis *mEntry, base []string, ex
 			switch plan.Kind {
 			case "val":
 				m.loadOK++
-				add(m.write(k, r.valFor(op, k), "reload"))
+				s.pendLoadWrite(k, r.valFor(op, k, 0), "reload")
 			case "err":
 				m.loadFail++
 				s.refFailEffect(k, vis)
 			case "notfound":
 				m.loadOK++
-				add(m.remove(k))
+				s.pendLoadRemove(k)
 			case "panic":
 				m.loadFail++
 				s.refFailEffect(k, vis)
@@ -116,14 +111,14 @@ func (s *seqState) applyLoad(op *Op, res *Result, vis *mEntry, base []string, ex
 	switch plan.Kind {
 	case "val":
 		m.loadOK++
-		v := r.valFor(op, k)
+		v := r.valFor(op, k, 0)
 		if res.Panic || res.V != v || res.Err != "" {
 			m.fail(props, "ret.load", k, "Get returned (%d,%q,panic=%v), loader supplied %d", res.V, res.Err, res.Panic, v)
 		}
-		add(m.write(k, v, "load"))
+		s.pendLoadWrite(k, v, "load")
 	case "err":
 		m.loadFail++
-		v := r.valFor(op, k)
+		v := r.valFor(op, k, 0)
 		if res.Panic || res.V != v || res.Err != "err" {
 			m.fail(props, "ret.load-err", k, "Get returned (%d,%q,panic=%v), loader returned (%d, error)", res.V, res.Err, res.Panic, v)
 		}
@@ -142,14 +137,11 @@ func (s *seqState) applyLoad(op *Op, res *Result, vis *mEntry, base []string, ex
 }
 
 // bulkPhase applies one bulk loader invocation (keys = the keys it was asked for).
-func (s *seqState) bulkPhase(op *Op, keys []int, reload bool, explicit *[]*expEvent) (supplied map[int]int, failed bool) {
+func (s *seqState) bulkPhase(op *Op, keys []int, reload bool) (supplied map[int]int, failed bool) {
 	m, r := s.m, s.r
 	plan := planOf(op)
-	add := func(e *expEvent) {
-		if e != nil {
-			*explicit = append(*explicit, e)
-		}
-	}
+	ph := s.phase
+	s.phase++
 	inCall := map[int]bool{}
 	for _, k := range keys {
 		inCall[k] = true
@@ -186,17 +178,19 @@ func (s *seqState) bulkPhase(op *Op, keys []int, reload bool, explicit *[]*expEv
 		if omit[k] {
 			m.Probes["bulk-omit"]++
 			if reload {
-				add(m.remove(k)) // a reload that does not find the key removes the entry
+				s.pendLoadRemove(k) // a reload that does not find the key removes the entry
+			} else {
+				s.pending = append(s.pending, &subOp{k: k, remove: true, fromCall: true, optional: true})
 			}
 			continue
 		}
-		v := r.valFor(op, k)
+		v := r.valFor(op, k, ph)
 		supplied[k] = v
 		kind := "set"
 		if reload {
 			kind = "reload"
 		}
-		add(m.write(k, v, kind))
+		s.pendLoadWrite(k, v, kind)
 	}
 	for _, k := range plan.Extra {
 		if inCall[k] {
@@ -206,18 +200,14 @@ func (s *seqState) bulkPhase(op *Op, keys []int, reload bool, explicit *[]*expEv
 			continue
 		}
 		m.Probes["bulk-extra"]++
-		v := r.valFor(op, k)
+		v := r.valFor(op, k, ph)
 		supplied[k] = v
-		kind := "set"
-		if reload {
-			kind = "reload"
-		}
-		add(m.write(k, v, kind))
+		s.pending = append(s.pending, &subOp{k: k, v: v, kind: "set", volunteered: true})
 	}
 	return supplied, false
 }
 
-func (s *seqState) applyBulkGet(op *Op, res *Result, explicit *[]*expEvent, loads []*loadRec) int {
+func (s *seqState) applyBulkGet(op *Op, res *Result, loads []*loadRec) int {
 	m := s.m
 	plan := planOf(op)
 	props := P("C01", "C10")
@@ -252,14 +242,14 @@ func (s *seqState) applyBulkGet(op *Op, res *Result, explicit *[]*expEvent, load
 	var calls []expCall
 	if len(staleKs) > 0 {
 		calls = append(calls, expCall{reload: true, keys: staleKs, olds: olds})
-		s.bulkPhase(op, staleKs, true, explicit)
+		s.bulkPhase(op, staleKs, true)
 		m.Probes["bulk-reload"]++
 	}
 	wantErr := ""
 	wantPanic := false
 	if len(misses) > 0 {
 		calls = append(calls, expCall{keys: misses})
-		supplied, failed := s.bulkPhase(op, misses, false, explicit)
+		supplied, failed := s.bulkPhase(op, misses, false)
 		if failed {
 			switch plan.Kind {
 			case "panic":
@@ -304,16 +294,11 @@ func (s *seqState) applyBulkGet(op *Op, res *Result, explicit *[]*expEvent, load
 	return len(calls)
 }
 
-func (s *seqState) applyRefresh(op *Op, res *Result, vis *mEntry, base []string, explicit *[]*expEvent, loads []*loadRec) int {
+func (s *seqState) applyRefresh(op *Op, res *Result, vis *mEntry, base []string, loads []*loadRec) int {
 	m, r := s.m, s.r
 	k := op.K
 	plan := planOf(op)
 	props := withProp(base, "C11")
-	add := func(e *expEvent) {
-		if e != nil {
-			*explicit = append(*explicit, e)
-		}
-	}
 	if !m.cfg.withRefresh() {
 		if !res.Nil {
 			m.fail(props, "refresh.channel-without-config", k, "Refresh returned a channel although refreshing is not configured")
@@ -332,16 +317,16 @@ func (s *seqState) applyRefresh(op *Op, res *Result, vis *mEntry, base []string,
 		switch plan.Kind {
 		case "val":
 			m.loadOK++
-			wantV = r.valFor(op, k)
-			add(m.write(k, wantV, "reload"))
+			wantV = r.valFor(op, k, 0)
+			s.pendLoadWrite(k, wantV, "reload")
 		case "err":
 			m.loadFail++
-			wantV, wantErr = r.valFor(op, k), "err"
+			wantV, wantErr = r.valFor(op, k, 0), "err"
 			s.refFailEffect(k, vis)
 		case "notfound":
 			m.loadOK++
 			wantErr = "notfound"
-			add(m.remove(k))
+			s.pendLoadRemove(k)
 		}
 	} else {
 		m.Probes["refresh-absent:"+plan.Kind]++
@@ -349,11 +334,11 @@ func (s *seqState) applyRefresh(op *Op, res *Result, vis *mEntry, base []string,
 		switch plan.Kind {
 		case "val":
 			m.loadOK++
-			wantV = r.valFor(op, k)
-			add(m.write(k, wantV, "load"))
+			wantV = r.valFor(op, k, 0)
+			s.pendLoadWrite(k, wantV, "load")
 		case "err":
 			m.loadFail++
-			wantV, wantErr = r.valFor(op, k), "err"
+			wantV, wantErr = r.valFor(op, k, 0), "err"
 		case "notfound":
 			m.loadOK++
 			wantErr = "notfound"
@@ -370,7 +355,7 @@ func (s *seqState) applyRefresh(op *Op, res *Result, vis *mEntry, base []string,
 	return 1
 }
 
-func (s *seqState) applyBulkRefresh(op *Op, res *Result, explicit *[]*expEvent, loads []*loadRec) int {
+func (s *seqState) applyBulkRefresh(op *Op, res *Result, loads []*loadRec) int {
 	m := s.m
 	plan := planOf(op)
 	props := P("C01", "C11")
@@ -403,7 +388,7 @@ func (s *seqState) applyBulkRefresh(op *Op, res *Result, explicit *[]*expEvent, 
 	want := map[int]RefreshView{}
 	free := map[int]bool{}
 	phase := func(keys []int, reload bool) {
-		supplied, failed := s.bulkPhase(op, keys, reload, explicit)
+		supplied, failed := s.bulkPhase(op, keys, reload)
 		for _, k := range keys {
 			switch {
 			case failed:
@@ -430,23 +415,37 @@ func (s *seqState) applyBulkRefresh(op *Op, res *Result, explicit *[]*expEvent, 
 		phase(present, true)
 	}
 	s.checkCalls(op, loads, calls)
-	if len(res.Refresh) != len(seen) {
-		m.fail(props, "refresh.result-count", -1, "BulkRefresh(%v) delivered %d results for %d distinct keys", op.Ks, len(res.Refresh), len(seen))
-		return len(calls)
+	// exactly one result for every requested distinct key; results for keys the loader volunteered
+	// are tolerated (the statement does not speak about them)
+	volunteered := map[int]bool{}
+	for _, k := range plan.Extra {
+		volunteered[k] = true
 	}
 	got := map[int]int{}
 	for _, g := range res.Refresh {
 		got[g.K]++
+	}
+	for k := range seen {
+		if got[k] < 1 || (got[k] > 1 && !volunteered[k]) {
+			m.fail(props, "refresh.result-count", k, "BulkRefresh(%v) delivered %d results for requested key %d", op.Ks, got[k], k)
+		}
+	}
+	matched := map[int]bool{}
+	for _, g := range res.Refresh {
 		w, ok := want[g.K]
-		if !ok || got[g.K] > 1 {
-			m.fail(props, "refresh.result", g.K, "BulkRefresh result for key %d (x%d) not requested", g.K, got[g.K])
+		if !ok {
+			if !volunteered[g.K] {
+				m.fail(props, "refresh.result", g.K, "BulkRefresh result for key %d which was neither requested nor volunteered", g.K)
+			}
 			continue
 		}
-		if free[g.K] {
-			continue
+		if free[g.K] || (g.V == w.V && g.Err == w.Err) {
+			matched[g.K] = true
 		}
-		if g.V != w.V || g.Err != w.Err {
-			m.fail(props, "refresh.result", g.K, "BulkRefresh result %+v, expected %+v", g, w)
+	}
+	for k, w := range want {
+		if !matched[k] {
+			m.fail(props, "refresh.result", k, "BulkRefresh(%v) results %+v lack the expected result %+v", op.Ks, res.Refresh, w)
 		}
 	}
 	return len(calls)
